@@ -11,7 +11,7 @@
      accum   : list line -> list kv         Codec.Acc.MarshalMap after the lines went through DecodeLn
                                              in the given order
      feature : list kv                      Codec.Features.MarshalMap
-   A "file" is the list of lines the scanner of parse() hands to the workers (lines shorter than two
+   A file is the list of lines the scanner of parse() hands to the workers (lines shorter than two
    bytes and comment lines are dropped there, before any of the modelled code).
 
    Schedules.  With n workers the per-line record lists reach the consumer whole (one channel send per
